@@ -10,15 +10,19 @@ Theorem cache_coherent : forall s, reach transform_function_prog s ->
 Proof. apply MachineProofs.cache_coherent. vm_compute; reflexivity. Qed.
 Print Assumptions cache_coherent.
 
-(* non-vacuity: completed requests exist, hits included *)
+(* non-vacuity: completed requests exist (a miss and a hit), whatever the
+   shape of the generated program *)
+Require Import MV.Cache.MachineCheck.
 Example completed_requests_exist : exists s, reach transform_function_prog s /\ length (s_out s) = 2.
 Proof.
-  eexists. split.
+  destruct (run transform_function_prog init
+              (seq_schedule transform_function_prog init [(0, (3, 1), 7); (1, (3, 1), 8)])) as [s|] eqn:E;
+    [|vm_compute in E; discriminate].
+  exists s. split.
   - apply run_reach with (s0 := init)
-      (ls := [LStart 0 (3,1) 7; LStart 1 (3,1) 8; LStep 0; LStep 1; LStep 0; LStep 0; LStep 0; LStep 0; LStep 0; LStep 0;
-              LStep 1; LStep 1; LStep 1; LStep 1; LStep 0; LStep 0; LStep 1; LStep 1]).
+      (ls := seq_schedule transform_function_prog init [(0, (3, 1), 7); (1, (3, 1), 8)]).
     + apply reach_init.
-    + reflexivity.
     + vm_compute. reflexivity.
-  - vm_compute. reflexivity.
+    + exact E.
+  - vm_compute in E. inversion E. reflexivity.
 Qed.
